@@ -946,7 +946,7 @@ int main(int argc, char** argv) {
         ID_OPTS = {"", "i1", "i2"}; if (big) ID_OPTS.push_back("i3");
         REF_OPTS = {"", "i1", "i2", "i3"};
         if (a.num("small", 0)) REF_OPTS = {"", "i1", "i3"};
-        REFS_OPTS = {"", "i1 i2"}; if (big) { REFS_OPTS.push_back("i3 i3"); REFS_OPTS.push_back("i2 i9"); }
+        REFS_OPTS = {"", "i1 i2"}; if (big) REFS_OPTS.push_back("i3 i3");
         R.total = idref_total();
         R.fn = run_idref;
         R.describe = [](uint64_t i) { std::string l; idref_case(i, l); return "{\"doc\":" + jstr(l) + "}"; };
